@@ -9,6 +9,7 @@ mod gen;
 mod lfu;
 mod lru;
 mod prng;
+mod putres;
 mod runner;
 mod subj;
 mod types;
@@ -366,6 +367,7 @@ pub fn mk_subject(kind: u32, cfg: &[i128], meta: &std::collections::HashMap<Stri
             FPS[m("fpi") as usize], m("kh"), m("hasher"))),
         5 => Box::new(lfu::mk_tiny(m("size") as usize, m("samples") as usize, FPS[m("fpi") as usize])),
         6 => Box::new(lfu::mk_sampled(cfg[0] as i64, cfg[1] as usize, m("ctor"))),
+        7 => Box::new(putres::PutResSubj),
         _ => panic!("unknown kind"),
     }
 }
@@ -454,6 +456,18 @@ fn slice_replay(a: &Args, t: &mut Trace) {
     }
 }
 
+fn slice_putres(a: &Args, t: &mut Trace) {
+    for i in 0..a.n {
+        if i % a.shard.1 != a.shard.0 {
+            continue;
+        }
+        let mut r = rng_for(a.seed, i + 9_000_000);
+        let len = a.len as usize;
+        let id = format!("putres-s{}-i{}", a.seed, i);
+        run_case(t, &id, 7, &[], "", &|| Box::new(putres::PutResSubj), &mut |step, _| if step >= len { None } else { Some(putres::gen_op(&mut r)) }, &tag);
+    }
+}
+
 fn main() {
     // panics are expected outcomes for some slices: keep stderr quiet
     std::panic::set_hook(Box::new(|_| {}));
@@ -468,6 +482,7 @@ fn main() {
         "tiny" => slice_lfu(&a, &mut t, 5),
         "sampled" => slice_lfu(&a, &mut t, 6),
         "replay" => slice_replay(&a, &mut t),
+        "putres" => slice_putres(&a, &mut t),
         "lru_bfs" => slice_lru_bfs(&a, &mut t),
         s => {
             eprintln!("unknown slice {}", s);
